@@ -22,7 +22,7 @@ import specreader
 ID = 'C02'
 TITLE = 'Written text files follow the published format; conformant files load as such'
 GEN = ['Headers', 'SpecColumns', 'FileNames']
-RULE = ('each case = a generated dataset and a layout seed; all 14 top-level files, the three descriptor files and points3d are '
+RULE = ('each case = a generated dataset and a layout seed (columns comment first / missing / after some data rows); all 14 top-level files, the three descriptor files and points3d are '
         're-laid-out with per-line random choices (0-3 blanks of space/tab on each side of each field, comment/blank lines between '
         'rows, row order shuffled where the format does not number rows, LF/CRLF/CR per line, 0-3 leading zeros on timestamps, point '
         'ids and feature ids); distinct non-trivial = distinct (dataset, layout seed) with at least 5 files')
@@ -73,9 +73,17 @@ def relayout(rel, text, rng):
     if fname != 'points3d.txt':
         rng.shuffle(rows)
     lines = [['c', header[0]]]
-    for h in header[1:]:
-        lines.append(['c', h])
-    for r in rows:
+    # the columns comment is a comment: it may be missing, or stand anywhere after the version line (a data row may
+    # directly follow the version line); kept in place when there is no data row (points3d: it then tells the width)
+    where = rng.choice(['first', 'first', 'dropped', 'later']) if rows else 'first'
+    later_at = rng.randint(1, len(rows)) if where == 'later' else None
+    if where == 'first':
+        for h in header[1:]:
+            lines.append(['c', h])
+    for ri, r in enumerate(rows):
+        if later_at is not None and ri == later_at:
+            for h in header[1:]:
+                lines.append(['c', h])
         if rng.random() < 0.3:
             lines.append(rng.choice([['c', '# a comment, with, commas'], ['b', blanks(rng)], ['c', '#']]))
         fields = list(r)
@@ -86,6 +94,9 @@ def relayout(rel, text, rng):
             if i < len(fields):
                 fields[i] = zero_pad(fields[i], rng)
         lines.append(['d', [blanks(rng) for _ in fields], [blanks(rng) for _ in fields], fields])
+    if later_at is not None and later_at == len(rows):
+        for h in header[1:]:
+            lines.append(['c', h])
     if rng.random() < 0.3:
         lines.append(['b', ''])
     eols = [rng.choice(['\n', '\n', '\r\n', '\r']) for _ in lines]
